@@ -189,14 +189,14 @@ func (c *Config) handleSvcConfigUpdate(svcName string, newCfg *service.Config) {
 	switch {
 	case oldCfg == nil:
 		c.emitSvcAddEvent(sw)
-	case oldCfg.Validate() != nil:
+	default:
 		// An existing processor gets the config event as usual. No processor
-		// is created for an invalid config, so also announce the service again
-		// (the add event is ignored when the processor exists).
+		// exists when the old config was invalid, or when it could not be
+		// built from it (e.g. a protocol without processor), so also announce
+		// the service again (the add event is ignored when the processor
+		// exists).
 		c.emitSvcConfigEvent(svcName, newCfg)
 		c.emitSvcAddEvent(sw)
-	default:
-		c.emitSvcConfigEvent(svcName, newCfg)
 	}
 }
 
